@@ -199,7 +199,7 @@ def generate(rng, tier):
 
 
 FITTED = ["trend", "spline", "knn", "linear", "cubic", "chain_block_trend", "chain_blockmean_spline", "chain_trend_knn", "vector",
-          "chain_block_vector"]
+          "chain_block_vector", "spline_forces", "splinecv_forces", "vectorspline_forces"]
 
 
 def mk_fitted(which, seed, shape, spacing, kind):
@@ -218,9 +218,14 @@ def _fitted(a):
     d = 2.0 + 0.5 * e - 0.25 * n + 0.125 * e * n
     d2 = -1.0 + 0.25 * e + 0.5 * n
     red = lambda: vd.BlockReduce(np.mean, spacing=3.0)  # noqa: E731
-    vec = which in ("vector", "chain_block_vector")
+    vec = which in ("vector", "chain_block_vector", "vectorspline_forces")
+    # separate force positions on a padded regular grid: the bounding box of the FORCES differs from that of the data
+    fgrid = tuple(np.ravel(c) for c in vd.grid_coordinates((-6.0, 12.0, 7.0, 20.0), shape=(4, 5)))
     g = {"trend": lambda: vd.Trend(2), "spline": lambda: vd.Spline(mindist=0.5), "knn": lambda: vd.KNeighbors(k=3),
          "linear": lambda: vd.Linear(), "cubic": lambda: vd.Cubic(),
+         "spline_forces": lambda: vd.Spline(damping=1e-3, force_coords=fgrid),
+         "splinecv_forces": lambda: vd.SplineCV(dampings=(1e-3, 1e-1), force_coords=fgrid, cv=__import__("sklearn.model_selection").model_selection.KFold(3, shuffle=True, random_state=0)),
+         "vectorspline_forces": lambda: vd.VectorSpline2D(damping=1e-2, force_coords=fgrid),
          "chain_block_trend": lambda: vd.Chain([("reduce", red()), ("trend", vd.Trend(1))]),
          "chain_blockmean_spline": lambda: vd.Chain([("mean", vd.BlockMean(spacing=2.5)), ("spline", vd.Spline(mindist=1.0, damping=1e-3))]),
          "chain_trend_knn": lambda: vd.Chain([("trend", vd.Trend(1)), ("knn", vd.KNeighbors(k=2))]),
